@@ -60,8 +60,16 @@ def run_cases(mod, cases, driver, stats):
             res = mod.examine(case)
         except HarnessError:
             raise
-        except Exception:
-            raise HarnessError("examine crashed on %r:\n%s" % (case.get("recipe", case), traceback.format_exc()))
+        except Exception as e:
+            # an exception raised inside the library (not in the harness) is behaviour of the code under check
+            tb = traceback.extract_tb(e.__traceback__)
+            if tb and os.path.abspath(tb[-1].filename).startswith(os.path.join(common.REPO, "pypika")):
+                res = Result()
+                res.findings.append({"sig": {"kind": "unexpected-exception", "exc": type(e).__name__,
+                                             "where": "%s:%s" % (os.path.basename(tb[-1].filename), tb[-1].name)},
+                                     "what": "the library raised %s: %s while examining %r" % (type(e).__name__, str(e)[:200], case.get("recipe", case))})
+            else:
+                raise HarnessError("examine crashed on %r:\n%s" % (case.get("recipe", case), traceback.format_exc()))
         stats["evaluations"] += 1
         for t in res.tags:
             stats["dist"][t] = stats["dist"].get(t, 0) + 1
